@@ -75,6 +75,22 @@ func (s *JavaRefactorListener) EnterInterfaceDeclaration(ctx *InterfaceDeclarati
 	node.Name = ctx.Identifier().GetText()
 }
 
+// a file may declare an enum, an annotation type or a record instead of a class: it is refactored all the same
+func (s *JavaRefactorListener) EnterEnumDeclaration(ctx *EnumDeclarationContext) {
+	node.Type = "Enum"
+	node.Name = ctx.Identifier().GetText()
+}
+
+func (s *JavaRefactorListener) EnterAnnotationTypeDeclaration(ctx *AnnotationTypeDeclarationContext) {
+	node.Type = "Annotation"
+	node.Name = ctx.Identifier().GetText()
+}
+
+func (s *JavaRefactorListener) EnterRecordDeclaration(ctx *RecordDeclarationContext) {
+	node.Type = "Record"
+	node.Name = ctx.Identifier().GetText()
+}
+
 func (s *JavaRefactorListener) EnterTypeType(ctx *TypeTypeContext) {
 	startLine := ctx.GetStart().GetLine()
 	stopLine := ctx.GetStop().GetLine()
